@@ -229,7 +229,10 @@ def explainRun (ids : List Hash) : State → SpecSt → List DOp → List String
         | .op (.block b) =>
           -- a delivered block whose header-only index node had been manually invalidated is accepted and
           -- connected all the same (maybeAcceptBlock does not look at the node's own invalid status)
-          if (lookup s.idx b.hash).isSome && !(s.status b.hash).data && (s.status b.hash).knownInvalid
+          -- (the delivered block itself or a pooled orphan drained by this delivery)
+          let _ := b
+          if s.idx.any (fun n => !(s.status n.blk.hash).data && (s.status n.blk.hash).knownInvalid &&
+              (s'.status n.blk.hash).data)
           then "F-C02-e@" ++ toString k else "spec@" ++ toString k
         | _ => "spec@" ++ toString k
       else explainRun ids s' sp' rest gs (k + 1)
